@@ -13,14 +13,17 @@
 
    Model/External.v takes the components as Section variables of TOTAL type
    (tau_star : program -> theory, simp_classic : formula -> formula).  The real components are
-   partial (tau* can panic; the classic fixpoint loop is unbounded and not known to terminate; the
-   classic rewrites contain reachable-looking `panic!`s), so the instantiation is guarded: the
+   partial (tau* can panic; the classic fixpoint loop is unbounded - it terminates, C18_term_cls, but
+   the bound is not executable; the classic rewrites contain `panic!`s - unreachable on completed
+   tau* theories, Proofs/NoPanic.v), so the instantiation is guarded: the
    translations are first run with all outcomes visible ([translate_status], same order of effects
    as the closures `theory_translate` in the source: specification program first, then the program;
    within one program tau*, completion, then the formulas left to right); only when every step
    returns a value is External.external_decompose run, with the totalised components, which then
    take exactly those values.  The fixpoint loop gets explicit fuel: [XNonterminating] stands for
-   "more than [fuel] further passes" (the real loop would go on; nothing is claimed about it). *)
+   "more than [fuel] further passes" - a fuel artefact: Proofs/ExtFuel.v shows that an answer other
+   than XNonterminating is the answer of every larger fuel and that from [ext_fuel_bound t] on the
+   answer is never XNonterminating. *)
 From Coq Require Import List Ascii String ZArith NArith Bool.
 From Anthem Require Import Base.ISet Syntax.Fol Syntax.Asp Model.Apply
   Model.Break Model.Problem Model.Outline Model.Strong Model.External
